@@ -78,7 +78,9 @@ def build_tree(desc, U=None):
     created = []
     uniq = [0]
 
-    def add(parent, lbl, kind, did, node_id):
+    rev = bool(desc.get("rev"))
+
+    def add(parent, lbl, kind, did, node_id, before=None):
         obj = U.objs[lbl % len(U.objs)]
         eff = did if did is not None else calc_of(desc, obj)
         sibs = parent._children or []
@@ -92,15 +94,19 @@ def build_tree(desc, U=None):
             kw["data_id"] = did
         if node_id and node_id not in tree._node_by_id:   # 0 is refused by an assertion in _register
             kw["node_id"] = node_id
+        if before is not None:
+            kw["before"] = before
         n = parent.add(obj, **kw)
         created.append(n)
         return n
 
     def go(parent, nodes):
-        for nd in nodes:
+        # rev: siblings are created last-to-first and prepended, so that the insertion order of the
+        # clone index (and of the registry) is not the pre-order of the finished tree
+        for nd in (reversed(nodes) if rev else nodes):
             lbl, kind, did, kids = nd[0], nd[1], nd[2], nd[3]
             node_id = nd[4] if len(nd) > 4 else None
-            n = add(parent, lbl, kind, did, node_id)
+            n = add(parent, lbl, kind, did, node_id, True if rev else None)
             go(n, kids)
 
     go(tree._root, desc["nodes"])
@@ -118,10 +124,18 @@ def build_tree(desc, U=None):
     for op in desc.get("ops", []):
         if not created:
             break
-        if op[0] == "mv":
+        if op[0] in ("mv", "mvc"):
             if typed:          # TypedNode.move_to is not implemented
                 continue
-            src = created[op[1] % len(created)]
+            if op[0] == "mvc":     # a node that has a clone created later: moving it behind that clone makes index order != pre-order
+                cands = [n for i, n in enumerate(created) if alive(n) and
+                         any(alive(m) and m._data_id == n._data_id and type(m._data_id) is type(n._data_id) for m in created[i + 1:])]
+                if not cands:
+                    continue
+                src = cands[op[1] % len(cands)]
+                op = ["mv", 0, op[2], None]
+            else:
+                src = created[op[1] % len(created)]
             tgt = tree._root if op[2] < 0 else created[op[2] % len(created)]
             if not alive(src) or has_equal_sibling(src) or (tgt is not tree._root and not alive(tgt)) or in_branch(tgt, src):
                 continue
@@ -239,17 +253,17 @@ class Prop:
             lambda i, d, s: ([4, 0, 12, 4, 1][i % 5], None, [None, 7, None, "a", 3][i % 5], [3, None, 7, None, 11][i % 5]),
             lambda i, d, s: ([5, 9, 0, 5, 9][i % 5], None, [None, None, 0, None, ""][(i + d) % 5], None),   # falsy data / data_id
         ]
-        shuffles = [[], [["mv", 0, -1, None]], [["rm", 1], ["add", 0, 1, None, 7], ["mv", 2, 0, 0]]]
+        shuffles = [([], False), ([["mvc", 0, -1]], True), ([["rm", 1], ["add", 0, 1, None, 7], ["mvc", 1, -1], ["mv", 2, 0, 0]], False)]
         for n in range(0, nmax + 1):
-            for shape in H.forests(n):
+            for shi, shape in enumerate(H.forests(n)):
                 for li, lab in enumerate(labelings):
-                    for si, ops in enumerate(shuffles):
+                    for si, (ops, rev) in enumerate(shuffles):
                         if n == 0 and (li or si):
                             continue
-                        if n >= 5 and (li + si) % 2:          # thin out the largest size
+                        if n >= nmax and n >= 4 and si != (li + shi) % 3:   # largest size: one shuffle per labeling, rotating
                             continue
                         nodes = _label(shape, lab)
-                        yield dict(univ=UNIV, calc=None, typed=False, nodes=nodes, ops=ops, mode="full", ks=_k(ks))
+                        yield dict(univ=UNIV, calc=None, typed=False, nodes=nodes, ops=ops, rev=rev, mode="full", ks=_k(ks))
         nrand = 30 if tier == "quick" else 300
         nmaxr = 14 if tier == "quick" else 30
         for j in range(nrand):
@@ -265,15 +279,17 @@ class Prop:
             ops = []
             for _ in range(rng.randint(0, 8)):
                 r = rng.random()
-                if r < 0.6:
+                if r < 0.3:
+                    ops.append(["mvc", rng.randrange(n), rng.choice([-1, -1] + list(range(n)))])
+                elif r < 0.6:
                     ops.append(["mv", rng.randrange(n), rng.choice([-1] + list(range(n))), rng.choice([None, None, 0, 1])])
                 elif r < 0.75:
                     ops.append(["rm", rng.randrange(n)])
                 else:
                     ops.append(["add", rng.choice([-1] + list(range(n))), rng.randrange(nl), rng.choice([None, None, 7, "a"]),
                                 rng.choice([None, None, 5])])
-            yield dict(univ=UNIV, calc=rng.choice([None, None, "name", "mod7"]), typed=typed, nodes=nodes, ops=ops,
-                       mode="sample", qseed=rng.randrange(1 << 30), nq=250 if tier == "quick" else 400,
+            yield dict(univ=UNIV, calc=rng.choice([None, None, "name", "mod7"]), typed=typed, nodes=nodes, ops=ops, rev=rng.random() < 0.5,
+                       mode="sample", qseed=rng.randrange(1 << 30), nq=60 if tier == "quick" else 120,
                        ks=_k([None, 0, 1, 2, 3, 4, 5]))
 
     def shrink_candidates(self, desc):
@@ -284,6 +300,8 @@ class Prop:
             yield dict(desc, nodes=nodes)
         if desc.get("calc"):
             yield dict(desc, calc=None)
+        if desc.get("rev"):
+            yield dict(desc, rev=False)
         if desc.get("typed"):
             yield dict(desc, typed=False)
 
@@ -318,55 +336,53 @@ class Prop:
         for n in nodes:
             if not any(type(d) is type(n._data_id) and d == n._data_id for d in present_dids):
                 present_dids.append(n._data_id)
-        data_objs = [U.objs[i] for i in range(len(desc["univ"])) if U.index(U.objs[i]) == i]
-        did_args = present_dids[:6] + [d for d in (0, "", "zz", 424242, 7, "a") if not any(type(d) is type(x) and d == x for x in present_dids[:6])]
+        uobjs = [U.objs[i] for i in range(len(desc["univ"])) if U.index(U.objs[i]) == i]
+        in_tree = [o for o in uobjs if any(n._data is o for n in nodes)]
+        absent = [o for o in uobjs if not any(n._data is o for n in nodes)]
+        falsy = [o for o in absent if isinstance(o, (int, str)) and not o]
+        data_objs = (in_tree + absent[:2] + falsy) if desc.get("mode") == "full" else uobjs
+        data_objs = [o for i, o in enumerate(data_objs) if not any(o is x for x in data_objs[:i])] or uobjs[:1]
+        did_args = present_dids[:5] + [d for d in (0, "", "zz", 7) if not any(type(d) is type(x) and d == x for x in present_dids[:5])]
         ks = [None if k == -1 else k for k in desc["ks"]]
+        ks_idx = ks + [k for k in (4, 5) if k not in ks]
 
-        queries = []           # python tuples
+        # queries: python tuples; NFA / TFA are sweeps (add_self x max_results, max_results)
+        queries = []
         full = desc.get("mode") == "full"
         mi_all = list(range(len(matchers)))
         mi_small = [0, 1, 3, 5, 6, n_re, n_re + 2, n_re + 4, n_re + 5, n_re + n_pr]
         for p in range(len(nodes)):
             for mi in (mi_small if full else mi_all):
-                for add_self in (False, True):
-                    for k in ks:
-                        queries.append(("nfa", p, None, mi, None, add_self, k))
+                queries.append(("NFA", p, None, mi, None, ks))
                 queries.append(("nff", p, None, mi, None))
             for o in data_objs:
-                for add_self in (False, True):
-                    for k in ks:
-                        queries.append(("nfa", p, o, None, None, add_self, k))
+                queries.append(("NFA", p, o, None, None, ks))
                 queries.append(("nff", p, o, None, None))
             for d in did_args:
-                for add_self in (False, True):
-                    for k in ks:
-                        queries.append(("nfa", p, None, None, d, add_self, k))
+                queries.append(("NFA", p, None, None, d, ks))
                 queries.append(("nff", p, None, None, d))
             # argument conflicts and the bare call
-            queries.append(("nfa", p, None, None, None, True, None))
-            queries.append(("nfa", p, data_objs[0], None, 7, False, None))
-            queries.append(("nfa", p, None, 0, 7, False, 1))
+            queries.append(("NFA", p, None, None, None, [None]))
+            queries.append(("NFA", p, data_objs[0], None, 7, [None]))
+            queries.append(("NFA", p, None, 0, 7, [1]))
             queries.append(("nff", p, data_objs[0], 0, None))
         for mi in mi_all:
-            for k in ks:
-                queries.append(("tfa", None, mi, None, k))
+            queries.append(("TFA", None, mi, None, ks))
             queries.append(("tff", None, mi, None, None))
         for o in data_objs:
-            for k in ks + [4, 5]:
-                queries.append(("tfa", o, None, None, k))
+            queries.append(("TFA", o, None, None, ks_idx))
             queries.append(("tff", o, None, None, None))
         for d in did_args:
-            for k in ks + [4, 5]:
-                queries.append(("tfa", None, None, d, k))
+            queries.append(("TFA", None, None, d, ks_idx))
             queries.append(("tff", None, None, d, None))
         reg_keys = list(tree._node_by_id.keys())
         for z in reg_keys[:8] + [3, 7, 0, 99]:
             queries.append(("tff", None, None, None, z))
-        queries += [("tfa", None, None, None, None), ("tff", None, None, None, None), ("tfa", data_objs[0], None, 7, None),
-                    ("tfa", None, 0, 7, 2), ("tff", data_objs[0], None, None, 3), ("tff", None, 0, None, 3), ("tff", None, 0, 7, None)]
+        queries += [("TFA", None, None, None, [None]), ("tff", None, None, None, None), ("TFA", data_objs[0], None, 7, [None]),
+                    ("TFA", None, 0, 7, [2]), ("tff", data_objs[0], None, None, 3), ("tff", None, 0, None, 3), ("tff", None, 0, 7, None)]
 
         # keys for index access, symbolic so that they can be re-resolved on a rebuilt tree
-        keys = [("obj", i) for i in range(len(desc["univ"])) if U.index(U.objs[i]) == i]
+        keys = [("obj", i) for i in range(len(desc["univ"])) if any(U.objs[i] is o for o in data_objs)]
         keys += [("lit", d) for d in did_args if isinstance(d, (int, str))]
         keys += [("nodeid", p) for p in range(min(len(nodes), 6))]
         keys += [("lit", v) for v in (3, 7, 0, 99)] + [("lit", True), ("float", 7.0), ("float", 3.5), ("tuple", (9, 9)), ("none",)]
@@ -380,7 +396,7 @@ class Prop:
             keep = [q for q in queries if q[0] in ("get", "in")]
             rest = [q for q in queries if q[0] not in ("get", "in")]
             qr.shuffle(rest)
-            queries = rest[: desc.get("nq", 250)] + keep
+            queries = rest[: desc.get("nq", 60)] + keep
         dels = [kq for kq in keys if kq[0] in ("obj", "nodeid", "lit")]
         qr2 = random.Random(desc.get("qseed", 1) + len(nodes))
         qr2.shuffle(dels)
@@ -399,13 +415,34 @@ class Prop:
         # --- run the implementation, render, and check
         st = dict(tree=tree, U=U, nodes=nodes, matchers=matchers, desc=desc)
         obs, coq_q, fails = [], [], []
+        nsub = 0
         for q in queries:
-            o, cq = self.exec_query(st, q)
+            if q[0] == "NFA":
+                _, p, data, mi, did, qks = q
+                subs = [[("nfa", p, data, mi, did, a, k) for k in qks] for a in (False, True)]
+                res = [[self.exec_query(st, sq) for sq in row] for row in subs]
+                o = [[r[0] for r in row] for row in res]
+                pairs = [(sq, r[0]) for row, rr in zip(subs, res) for sq, r in zip(row, rr)]
+                cq = (f"(QNodeFindAll {H.nid(nodes[p])} {c_odid(None if data is None else calc_of(desc, data))} {c_oz(mi)} "
+                      f"{c_odid(did)} {H.coq_list(str(0 if k is None else k) for k in qks)})")
+            elif q[0] == "TFA":
+                _, data, mi, did, qks = q
+                subs = [("tfa", data, mi, did, k) for k in qks]
+                res = [self.exec_query(st, sq) for sq in subs]
+                o = [r[0] for r in res]
+                pairs = [(sq, r[0]) for sq, r in zip(subs, res)]
+                cq = (f"(QTreeFindAll {c_odid(None if data is None else calc_of(desc, data))} {c_oz(mi)} {c_odid(did)} "
+                      f"{H.coq_list(str(0 if k is None else k) for k in qks)})")
+            else:
+                o, cq = self.exec_query(st, q)
+                pairs = [(q, o)]
             obs.append(o)
             coq_q.append(cq)
-            f = self.oracle(st, q, o)
-            if f and len(fails) < 3:
-                fails.append(f)
+            nsub += len(pairs)
+            for sq, so in pairs:
+                f = self.oracle(st, sq, so)
+                if f and len(fails) < 3:
+                    fails.append(f)
 
         reg = H.coq_list(f"({H.z(int(k))}, {H.nid(v)})" for k, v in tree._node_by_id.items())
         idx = H.coq_list(f"({H.coq_did(k)}, {H.coq_list(H.z(H.nid(x)) for x in v)})" for k, v in tree._nodes_by_data_id.items())
@@ -417,12 +454,12 @@ class Prop:
         maxg = max((len(g) for g in groups.values()), default=0)
         shuffled = any([H.nid(x) for x in tree._nodes_by_data_id.get(n._data_id, [])] != [H.nid(x) for x in g]
                        for (_, _), g in groups.items() for n in g[:1])
-        nerr = sum(1 for o in obs if o[0] == 1)
+        nerr = str(obs).count('[1, ')
         return Case(desc=desc, coq_input=coq_input, impl_obs=[True, obs], oracle_fail="; ".join(fails) or None,
                     nontrivial=len(nodes) >= 3 and maxg >= 2,
-                    key=H.digest([desc["univ"], desc["nodes"], desc.get("ops"), desc.get("calc"), desc.get("typed")]),
+                    key=H.digest([desc["univ"], desc["nodes"], desc.get("ops"), desc.get("calc"), desc.get("typed"), desc.get("rev")]),
                     stats=dict(nodes=len(nodes), max_clone_group=maxg, index_order_differs=shuffled,
-                               queries=(len(queries) // 100) * 100, error_answers=(nerr // 10) * 10,
+                               queries=(nsub // 100) * 100, error_answers=(nerr // 10) * 10,
                                calc=str(desc.get("calc")), typed=bool(desc.get("typed"))))
 
     def oracle_resolves_to(self, st, kq, n):
